@@ -256,6 +256,47 @@ def r1(k: Kit) -> None:
               'connection_lost wakes every reader (via EOF) and drainer',
               'stream connection_lost does not wake all readers/drainers',
               cl_.loc(cl_.node))
+    # SSHProcess._should_block_drain also blocks while a redirect reader
+    # feeds the data type: whoever removes readers re-evaluates the drain
+    # waiters afterwards
+    proc = idx.cls('process.SSHProcess')
+    rsites = 0
+    for f in proc.methods.values():
+        gp = None
+        for x in ast.walk(f.node):
+            removes = False
+            if isinstance(x, ast.Assign) and any(
+                    dotted(t) == 'self._readers' for t in x.targets) and \
+                    f.name != '__init__':
+                removes = True
+            if isinstance(x, ast.Delete) and any(
+                    isinstance(t, ast.Subscript) and
+                    dotted(t.value) == 'self._readers' for t in x.targets):
+                removes = True
+            if not removes:
+                continue
+            gp = gp or k.cfg(f)
+            nd = gp.node_for(x)
+            if nd is None:
+                continue
+            rsites += 1
+            ub = [n_.id for n_, c in k.calls_named(f, '_unblock_drain',
+                                                   'self')]
+            ub += [n_.id for n_ in gp.nodes if n_.kind == 'loop' and any(
+                is_call(c, '_unblock_drain', 'self')
+                for c in ast.walk(n_.ast) if isinstance(c, ast.Call))]
+            w = gp.path(nd.id, gp.exit, blocked_nodes=ub, follow_exc=False)
+            rep.check(bool(ub) and w is None, 'C09.R1',
+                      key(f, 'drain waiters re-evaluated after readers go'),
+                      'removing redirect readers is followed by '
+                      '_unblock_drain',
+                      f'{f.qual} removes redirect readers, which is what '
+                      'SSHProcess._should_block_drain waits for, without '
+                      'calling _unblock_drain afterwards: a task in '
+                      'stdin.drain() while stdin is redirected is never '
+                      'woken when the channel closes',
+                      k.loc(f, nd), gp.describe_path(w) if w else None)
+    rep.floor('C09.R1', 'redirect reader removal sites', rsites, 2)
     ef = k.func('stream.SSHStreamSession.eof_received')
     rep.check(any(isinstance(x, ast.For) and
                   dotted(x.iter) == 'self._read_waiters' and any(
